@@ -149,7 +149,10 @@ func (u upstream) RoundTrip(req *http.Request) (*http.Response, error) {
 		if u.r.c.BrokenBody {
 			return &http.Response{StatusCode: 202, Status: "202", Header: http.Header{}, Body: io.NopCloser(brokenReader{}), Request: req}, nil
 		}
-		return &http.Response{StatusCode: 503, Status: "503", Header: http.Header{}, Body: io.NopCloser(strings.NewReader("busy")), Request: req}, nil
+		// a refusal is any status outside 2xx: a 503, or - every other time - a 304 as a cache or proxy in front of the
+		// upstream may produce (Go's client hands a 3xx without Location back as it is)
+		st := []int{503, 304}[len(u.r.attempts)%2]
+		return &http.Response{StatusCode: st, Status: fmt.Sprint(st), Header: http.Header{}, Body: io.NopCloser(strings.NewReader("busy")), Request: req}, nil
 	case 2:
 		return nil, errors.New("connection reset")
 	}
